@@ -39,7 +39,9 @@ DATES = [datetime.datetime(2020, 1, 2), datetime.datetime(1999, 12, 31, 23, 59, 
          datetime.datetime(2038, 1, 19, 3, 14, 8), datetime.datetime(1900, 3, 1), datetime.datetime(2020, 1, 3),
          datetime.datetime(2020, 1, 2, 3, 4, 5, 500000), datetime.datetime(2020, 1, 2, 3, 4, 5, 400000),
          # outside what nanoseconds can hold (kept out of the ns variant by normalise_column): sentinel and history
-         datetime.datetime(9999, 12, 30), datetime.datetime(1600, 3, 1)] + \
+         datetime.datetime(9999, 12, 30), datetime.datetime(1600, 3, 1),
+         # years below 1000 (the 0001-01-01 sentinel): four digits when written
+         datetime.datetime(1, 1, 2), datetime.datetime(987, 6, 5, 4, 3, 2)] + \
         [datetime.datetime(2039, 5, 6, 7, 8, 9, u) for u in HARD_US[:6]] + \
         [datetime.datetime(1890, 5, 6, 7, 8, 9, u) for u in HARD_US[6:9]]
 
